@@ -5,7 +5,9 @@ Histories over {add_template, add_template_owned (3 Cow combinations), remove_te
 set_loader (closures whose answers change with a clock), add/remove filter/test/global (custom names,
 built-ins, user functions/filters/tests taking Kwargs, a global holding a container), clone (continue on either copy), switch, render (any of 4 contexts, into a String or a failing writer, on
 this or a new thread; ok / compile-time failure / run-time failure in tojson, in filters, in assert_all_used,
-in the sink / failing or panicking context), the ad-hoc entry points render_named_str / render_str / template_from_named_str /
+in the sink / failing or panicking context), NESTED renders (filters, tests, functions, objects'
+Display / attribute lookup / methods, formatter, auto-escape callback, loader callback that render a template
+themselves on the same environment, a clone, a fresh or an unrelated one, under none/html/json), the ad-hoc entry points render_named_str / render_str / template_from_named_str /
 template_from_str / compile_expression(_owned) / undeclared_variables with names that collide with stored or
 loader-served templates, set_trim_blocks / set_keep_trailing_newline} are run against the real engine; after EVERY step
 the harness reports what every name renders in the current and in the other environment.
@@ -297,6 +299,9 @@ def evaluate(hists, profiles=(False, True), want_model=True, chunk_main=None, ch
                     f = {"oracle": "A", "profile": prof, "step": k, "step_text": describe_step(h[k]),
                          "implementation": out[k * STEP_W:(k + 1) * STEP_W], "specification": spec[i][k * STEP_W:(k + 1) * STEP_W],
                          "what": "after this step the implementation's result/observations differ from what the contents predict"}
+                    seg = out[k * STEP_W:(k + 1) * STEP_W]
+                    if any(seg[j] == 4 and seg[j + 1] == 1 for j in (0, 2, 4, 6, 8, 11, 13, 15, 17)):
+                        f["what"] = "the engine PANICKED in this step's operation or in one of the renders observed after it (pair 4 1); " + f["what"]
                 break
             for k in range(len(h)):
                 cur = out[k * STEP_W + 2:k * STEP_W + 10]
